@@ -142,11 +142,19 @@ def save_debug(ctx, name, text):
 def goenv(ctx):
     e = dict(os.environ)
     e.update(GOENV)
+    if COVER:
+        os.makedirs(COVER, exist_ok=True)
+        e["GOCOVERDIR"] = COVER
+        e["VERIF_COVERDIR"] = COVER
     return e
 
 
+COVER = os.environ.get("VERIF_COVER", "")      # coverage survey (bin/coverage): a directory for GOCOVERDIR data
+COVERFLAGS = ["-cover", "-coverpkg=github.com/google/inverting-proxy/..."] if COVER else []
+
+
 def go_build_repo(ctx, pkg, out, race=False, tags="verif"):
-    cmd = ["go", "build", "-tags", tags]
+    cmd = ["go", "build", "-tags", tags] + COVERFLAGS
     if race:
         cmd.append("-race")
     cmd += ["-o", os.path.join(ctx.bindir, out), pkg]
@@ -171,6 +179,8 @@ def harness_modfile(ctx):
 
 def go_build_harness(ctx, pkg="./cmd/vdrive", out="vdrive", race=False):
     cmd = ["go", "build", "-tags", "verif", "-modfile", harness_modfile(ctx)]
+    if COVER:   # (the pattern has to include the main module of the build, or nothing is instrumented)
+        cmd += ["-cover", "-coverpkg=verifharness/...,github.com/google/inverting-proxy/..."]
     if race:
         cmd.append("-race")
     cmd += ["-o", os.path.join(ctx.bindir, out), pkg]
